@@ -28,8 +28,6 @@ theorem Chunk.advance_WF {c : Chunk} {n : Nat} (h : c.WF) (hn : n < c.remLen) : 
     simp only [Chunk.WF, Chunk.remLen, Chunk.advance] at *
     omega
 
-def CqWF (q : Cq) : Prop := ∀ c ∈ q, c.WF
-
 theorem cqFlat_cons (c : Chunk) (q : Cq) : cqFlat (c :: q) = c.rem ++ cqFlat q := by
   simp [cqFlat]
 
@@ -172,6 +170,7 @@ theorem writevMem_inv (st : NwSt) (maxBytes : Nat) (h : CqWF st.q) :
     | eintr => simp only [hres]; exact NwInv.of_same rfl rfl rfl h
     | epipe => simp only [hres]; exact NwInv.of_same rfl rfl rfl h
     | econnreset => simp only [hres]; exact NwInv.of_same rfl rfl rfl h
+    | enotconn => simp only [hres]; exact NwInv.of_same rfl rfl rfl h
     | einval => simp only [hres]; exact NwInv.of_same rfl rfl rfl h
     | eio => simp only [hres]; exact NwInv.of_same rfl rfl rfl h
 
@@ -207,6 +206,9 @@ theorem fileNoMmap_inv (st : NwSt) (maxBytes : Nat) (h : CqWF st.q) :
         | eintr => simp only [hres]; exact NwInv.of_same rfl rfl rfl h
         | epipe => simp only [hres]; exact NwInv.of_same rfl rfl rfl h
         | econnreset => simp only [hres]; exact NwInv.of_same rfl rfl rfl h
+      | enotconn => simp only [hres]; exact NwInv.of_same rfl rfl rfl h
+        | enotconn => simp only [hres]; exact NwInv.of_same rfl rfl rfl h
+    | enotconn => simp only [hres]; exact NwInv.of_same rfl rfl rfl h
         | einval => simp only [hres]; exact NwInv.of_same rfl rfl rfl h
         | eio => simp only [hres]; exact NwInv.of_same rfl rfl rfl h
   · exact NwInv.refl h
@@ -254,6 +256,8 @@ theorem fileSendfile_inv (st : NwSt) (maxBytes : Nat) (h : CqWF st.q) :
       | eintr => simp only [hres]; exact NwInv.of_same rfl rfl rfl h
       | epipe => simp only [hres]; exact NwInv.of_same rfl rfl rfl h
       | econnreset => simp only [hres]; exact NwInv.of_same rfl rfl rfl h
+      | enotconn => simp only [hres]; exact NwInv.of_same rfl rfl rfl h
+    | enotconn => simp only [hres]; exact NwInv.of_same rfl rfl rfl h
       | einval => simp only [hres]; exact fileNoMmap_inv' st _ maxBytes rfl rfl rfl h
       | eio => simp only [hres]; exact NwInv.of_same rfl rfl rfl h
   · exact NwInv.refl h
